@@ -73,7 +73,7 @@ func uciCases(args []string) int {
 		"position startpos", "position startpos moves e2e4 e7e5 g1f3", "position startpos moves e2e4 e7e5 g1f3 b8c6 f1b5 a7a6 b5c6 d7c6 e1g1",
 		"position fen rnbqkbnr/pppppppp/8/8/8/8/PPPPPPPP/RNBQKBNR w KQkq - 0 1 moves e2e4",
 		"position fen r3k2r/p1ppqpb1/bn2pnp1/3PN3/1p2P3/2N2Q1p/PPPBBPPP/R3K2R w KQkq - 0 1 moves e1g1 e8c8 d5e6",
-		"position fen 8/P1k5/K7/8/8/8/8/8 w - - 0 1 moves a7a8q", "position fen 8/P1k5/K7/8/8/8/8/8 w - - 0 1 moves a7a8n c7c6",
+		"position fen 8/P1k5/K7/8/8/8/8/8 w - - 0 1 moves a7a8q", "position fen 8/P1k5/K7/8/8/8/8/8 w - - 0 1 moves a7a8r c7c6", "position fen 8/P1k5/K7/8/8/8/8/8 w - - 0 1 moves a7a8b", "position fen 1n6/P1k5/K7/8/8/8/8/8 w - - 0 1 moves a7b8r", "position fen 1n6/P1k5/K7/8/8/8/8/8 w - - 0 1 moves a7b8b c7b8", "position fen 8/P1k5/K7/8/8/8/8/8 w - - 0 1 moves a7a8n c7c6",
 		"position fen rnbqkbnr/ppp1p1pp/8/3pPp2/8/8/PPPP1PPP/RNBQKBNR w KQkq f6 0 3 moves e5f6", "position fen xyz", "position fen", "position",
 		"position startpos moves e2e5", "position startpos moves e2e4 e2e4", "position startpos moves", "position startpos e2e4",
 		"position fen 1n2k3/8/8/8/8/8/8/4RK2 w - - 0 1 moves e1e8 b8a6", "position fen 4k3/8/8/8/8/8/8/4K3 w - e6 0 1 moves e1e2",
